@@ -288,7 +288,7 @@ fn verif_native_c02_independence() {
     assert!(fails.is_empty(), "C02.N.independence: FAILSET{{{}}} {} of {} operator/direction pairs fail over {} singleton comparisons, first: {:?}", ids.join(","), fails.len(), 2 * defs.len(), n, &fails[..fails.len().min(6)]);
 }
 
-//@n {"id":"C15.N.gravsoft.layout","props":["C15","C16"],"tier":"quick","bound":"2x3-node Gravsoft texts with 1, 2 and 3 bands x 6 layouts (plain, CRLF, tabs and blank lines, one value per line, comments before/after/between with one or several # per line, trailing comment without newline); plus truncated and over-long texts","text":"a Gravsoft text grid decodes to a grid whose geometry and node values are those written in the file after the documented sign, order and unit conventions, whatever the comment and whitespace layout; texts with too few or too many values are rejected with an error, not a panic"}
+//@n {"id":"C15.N.gravsoft.layout","props":["C15","C16"],"tier":"quick","bound":"2x3-node Gravsoft texts with 1, 2 and 3 bands x 6 layouts (plain, CRLF, tabs and blank lines, one value per line, comments before/after/between with one or several # per line, trailing comment without newline); plus truncated and over-long texts; plus 4 single-band grids whose spacing (0.1, 0.05, 0.2, 0.3, 0.333333 degrees) does not divide the extent exactly in binary","text":"a Gravsoft text grid decodes to a grid whose geometry and node values are those written in the file after the documented sign, order and unit conventions, whatever the comment and whitespace layout; texts with too few or too many values are rejected with an error, not a panic"}
 #[test]
 fn verif_native_c15_gravsoft_layout() {
     let mut fails = Vec::new();
@@ -361,6 +361,27 @@ fn verif_native_c15_gravsoft_layout() {
                     }
                 }
                 Ok(Err(_)) => {}
+            }
+        }
+    }
+    // spacings that do not divide the extent exactly in binary floating point (0.1, 0.05, 0.333333 degrees)
+    for (lat, lon, d, rows, cols) in [((55.0, 55.3), (12.0, 12.3), (0.1, 0.1), 4usize, 4usize), ((54.0, 54.7), (8.0, 9.1), (0.1, 0.1), 8, 12), ((-1.0, 0.0), (-0.35, 0.0), (0.333333, 0.05), 4, 8), ((10.0, 10.6), (20.0, 20.9), (0.2, 0.3), 4, 4)] {
+        n += 1;
+        let vals: Vec<String> = (0..rows * cols).map(|k| format!("{}", k as f64 + 0.5)).collect();
+        let text = format!("{} {} {} {} {} {}\n{}\n", lat.0, lat.1, lon.0, lon.1, d.0, d.1, vals.join(" "));
+        match std::panic::catch_unwind(|| BaseGrid::gravsoft(text.as_bytes())) {
+            Err(_) => fails.push(format!("fractional spacing {lat:?} {lon:?} {d:?}: panicked")),
+            Ok(Err(e)) => fails.push(format!("fractional spacing {lat:?} {lon:?} {d:?} ({rows}x{cols} nodes supplied): rejected: {e:?}")),
+            Ok(Ok(g)) => {
+                // corner nodes: first value is the north-west node, last the south-east one
+                for (r, c) in [(0usize, 0usize), (0, cols - 1), (rows - 1, 0), (rows - 1, cols - 1), (1, 1)] {
+                    let p = Coor4D::geo(lat.1 - r as f64 * d.0, lon.0 + c as f64 * d.1, 0.0, 0.0);
+                    let want = (cols * r + c) as f64 + 0.5;
+                    match g.at(&p, 0.5) {
+                        Some(v) if (v[0] - want).abs() < 1e-3 => {}
+                        other => fails.push(format!("fractional spacing {lat:?} {lon:?} {d:?}: node ({r},{c}) gives {:?}, expected {want}", other.map(|v| v[0]))),
+                    }
+                }
             }
         }
     }
